@@ -176,16 +176,19 @@ PROPERTIES["C04"] = {
            "thorough": "same transcripts, every pair of cut positions c1 <= c2 (3 reads)"},
           params={"quick": {"cuts": 1}, "thorough": {"cuts": 2}}, budget={"quick": 400, "thorough": 3000},
           required_covers=["c04.cut-inside-handshake", "c04.data-delivered"]),
+        M("c04_actor_handshake_output", "d_c04", "actor_handshake_output",
+          "tokio session actor: apply_engine_output_handshake (coroutine MIR) on a hand-assembled actor whose engine has just emitted HandshakeComplete + DeliverMessage for one read (v3 NULL and ZMTP/2.0 transcripts); socket writes and the pipe manager are stubbed",
+          budget={"quick": 120, "thorough": 200}, required_covers=["c04.actor.handler-ran"]),
     ],
-    "assumptions": MIRSYM_TRUST,
+    "assumptions": MIRSYM_TRUST + ["the actor value for c04_actor_handshake_output is assembled by the driver (I/O halves absent, pipe manager reports 'not attached'); 'delivered' is judged by the frames still being reachable from the actor's state after the handler returns"],
     "manifest": {
         "engine": "mirsym",
-        "technique": "symbolic execution of the sans-IO engine's MIR (z3): differential run of the same transcript under every segmentation",
+        "technique": "symbolic execution of the sans-IO engine's MIR (z3): differential run of the same transcript under every segmentation; plus execution of the session actor's handshake-output handler",
         "text": "For four honest peer transcripts with symbolic identity/payload bytes, the sequence of HandshakeComplete/DeliverMessage actions, the bytes sent and the unconsumed residue are identical for every segmentation into 2 (quick) or 3 (thorough) reads, including cuts inside the greeting, inside frame headers and exactly at the end of the handshake; data sharing a read with the last handshake byte is emitted by the engine.",
         "design_ref": "DESIGN.md §5 C04",
-        "note": "Engine level only. NOT claimed: what the tokio session actor / io_uring handler do with the engine's output (apply_engine_output_handshake ignores DeliverMessage: see DESIGN.md findings), kernel read scheduling, CURVE/NOISE transcripts.",
+        "note": "Engine level, plus one step of the tokio session actor: data delivered by the engine together with HandshakeComplete is kept by apply_engine_output_handshake (it used to be dropped: finding F12, fixed). NOT claimed: the io_uring handler, kernel read scheduling, CURVE/NOISE transcripts, the operational loop draining what was kept (shown only by the native replay).",
     },
-    "outside": "session actor and io_uring handler consumption of engine output; CURVE/NOISE transcripts",
+    "outside": "io_uring handler; operational loop of the session actor; CURVE/NOISE transcripts",
 }
 
 PROPERTIES["C19"] = {
